@@ -4,7 +4,7 @@
    One wavenumber at a time except for the saturation clamp, which looks at the minimum over
    all wavenumbers. *)
 From Coq Require Import ZArith List Bool Arith.
-From TV Require Import Num ListNum Model_C01.
+From TV Require Import Num ListNum Model_C01 Model_C20.
 Import ListNotations.
 
 Section Planck.
@@ -87,3 +87,51 @@ Section Emission.
   (* direct image: flux * Rp^2 * 2 pi / (4 pi d^2) *)
   Definition direct (fl Rp dist : T) : T := (fl * (Rp * Rp) * n2 * npi) / (nofZ 4 * npi * (dist * dist)).
 End Emission.
+
+(* ---------- correlated-k emission (taurex/model/emission.py : evaluate_emission_ktables) ----------
+   The molecular absorber carries one vertical optical depth per layer AND per quadrature point g of the
+   k-distribution; everything else (CIA, Rayleigh, hazes) one per layer as before. The transmittance from a level to
+   the top is   exp(-m * sum_{k>=l} d_k) * sum_g w_g exp(-m * sum_{k>=l} kd_{k,g});   the intensity is the same
+   layered sum as above with that transmittance, and there is NO saturation clamp on this path. *)
+Section KEmission.
+  Context {T : Type} {N : TNum T}.
+  Local Open Scope num_scope.
+
+  (* kd[layer][g] at one wavenumber; column g as a list over layers *)
+  Definition kcol (kd : list (list T)) (g : nat) : list T := map (fun row => nth_d row g) kd.
+  (* sum_g exp(-tau_g) * w_g  (contribute_ktau / the np.sum(np.exp(-k * mu) * wg) of the emission routine) *)
+  Definition kmix (wts taus : list T) : T := ktrans wts taus.      (* Model_C20: the contribute_ktau mixture *)
+  (* molecular transmittance for the column depth selected by sel (all layers / above l / down to l) *)
+  Definition ktr (wts : list T) (kd : list (list T)) (sel : list T -> T) (m : T) : T :=
+    kmix wts (map (fun g => sel (kcol kd g) * m) (seq 0 (length wts))).
+
+  (* surface term: the molecular depth goes through contribute() = -log(sum_g w_g exp(-tau_g)) and is added to the
+     other sources' depth before the exponential *)
+  Definition ksurface_coded (d : list T) (kd : list (list T)) (wts : list T) (m : T) : T :=
+    nexp (- (nsum d * m + - nln (ktr wts kd nsum m))).
+  (* the same number without the detour through the logarithm (Proofs_C02k.ksurface_as_coded: equal whenever the
+     weights are non-negative and sum to one); this form is the one executed, because an interval enclosure of a
+     mixture that underflows contains 0 and has no logarithm, while the code's -log(0) = inf, exp(-inf) = 0 is benign *)
+  Definition ksurface (d : list T) (kd : list (list T)) (wts : list T) (m : T) : T :=
+    nexp (- (nsum d * m)) * ktr wts kd nsum m.
+
+  Definition kintensity (B d : list T) (kd : list (list T)) (wts : list T) (m : T) : T :=
+    nth_d B 0 * ksurface d kd wts m
+    + nsum (map (fun l => nth_d B l *
+                  (nexp (- (above d l * m)) * ktr wts kd (fun c => above c l) m
+                   - nexp (- (upto d l * m)) * ktr wts kd (fun c => upto c l) m))
+                (seq 0 (length d))).
+
+  (* sigma[layer][wn][g] of the molecular absorber (mixing-ratio weighted k-coefficients) -> kd at wavenumber w *)
+  Definition kdepths (sigma : list (list (list T))) (rho dz : list T) (w : nat) : list (list T) :=
+    map (fun l => map (fun s => s * nth_d dz l * nth_d rho l) (nth w (nth l sigma []) []))
+        (seq 0 (length rho)).
+
+  Definition kemission_I (h c k : T) (wn Tl : list T) (cs : list (@contrib T)) (sigma : list (list (list T)))
+    (kwts rho dz mus : list T) : list (list T) :=
+    map (fun mu =>
+           map (fun w => kintensity (map (fun t => planck h c k (nth_d wn w) t / npi) Tl)
+                                    (deltas cs rho dz w) (kdepths sigma rho dz w) kwts (n1 / mu))
+               (seq 0 (length wn)))
+        mus.
+End KEmission.
